@@ -4,6 +4,7 @@ mod settings_h;
 mod slices_h;
 mod worker_h;
 mod accept_h;
+mod control_h;
 
 use std::future::Future;
 use std::task::{Context, Poll, Waker};
